@@ -79,13 +79,27 @@ class MemPerDocWriter(base.PerDocWriterWithColumns):
         self.is_closed = False
         self._colwriters = {}
         self._doccount = 0
+        self._docnum = None
 
     def _has_column(self, fieldname):
         return fieldname in self._colwriters
 
     def _create_column(self, fieldname, column):
+        # Every writer on the memory codec (BufferedWriter uses one per
+        # document) gets a per-document writer of its own and re-creates the
+        # column file, so put back the values of the earlier documents first
         colfile = self._storage.create_file("%s.c" % fieldname)
-        self._colwriters[fieldname] = (colfile, column.writer(colfile))
+        colwriter = column.writer(colfile)
+        _, values = self._segment._colvalues.setdefault(fieldname,
+                                                        (column, []))
+        for docnum, value in values:
+            colwriter.add(docnum, value)
+        self._colwriters[fieldname] = (colfile, colwriter)
+
+    def add_column_value(self, fieldname, column, value):
+        base.PerDocWriterWithColumns.add_column_value(self, fieldname, column,
+                                                      value)
+        self._segment._colvalues[fieldname][1].append((self._docnum, value))
 
     def _get_column(self, fieldname):
         return self._colwriters[fieldname][1]
@@ -119,9 +133,19 @@ class MemPerDocWriter(base.PerDocWriterWithColumns):
 
     def close(self):
         colwriters = self._colwriters
+        # Columns only earlier documents have values for must be re-written
+        # too, so that they cover the documents added since
+        for fieldname, (column, _) in list(self._segment._colvalues.items()):
+            if fieldname not in colwriters:
+                self._create_column(fieldname, column)
+        # This writer may have started at a docbase > 0: the columns have to
+        # cover every document of the segment, not just the ones it added
+        doccount = self._segment._doccount
+        if self._docnum is not None:
+            doccount = max(doccount, self._docnum + 1)
         for fieldname in colwriters:
             colfile, colwriter = colwriters[fieldname]
-            colwriter.finish(self._doccount)
+            colwriter.finish(doccount)
             colfile.close()
         self.is_closed = True
 
@@ -299,6 +323,8 @@ class MemSegment(base.Segment):
         self._vectors = {}
         self._invindex = {}
         self._terminfos = {}
+        # fieldname -> (column type, [(docnum, column value)])
+        self._colvalues = {}
         self._lock = Lock()
 
     def codec(self):
